@@ -5,28 +5,34 @@
 # 3) applies the patch to /repo, runs the quick checks, restores /repo
 ID="$1"; NAME="${2:-$1}"; shift; shift
 CHECKS="$*"; [ -z "$CHECKS" ] && CHECKS="C01 C02 C03 C04 C05 C06 C07 C08 C09 C10 C11 C12 C13 C14 C15 C16 C17 C18 C19"
-WT=/tmp/wt/$ID
+WTROOT="${WTROOT:-/tmp/wt}"; WT=$WTROOT/$ID
 cd $WT || exit 2
-git diff -- src > /tmp/wt/$ID.patch
-[ -s /tmp/wt/$ID.patch ] || { echo "no change in $WT"; exit 2; }
+# the agent's recorded patch is authoritative (git stash is shared between worktrees, so trees may have been mixed up)
+if [ -s _seed/patch.diff ]; then
+  git checkout -q -- src
+  if ! git apply _seed/patch.diff 2>/dev/null; then echo "recorded patch does not apply in $WT"; exit 2; fi
+fi
+git diff -- src > $WTROOT/$ID.patch
+[ -s $WTROOT/$ID.patch ] || { echo "no change in $WT"; exit 2; }
 echo "--- confirm in worktree $WT"
-mv tests/seed_demo.rs /tmp/wt/$ID.demo.rs 2>/dev/null
+mv tests/seed_demo.rs $WTROOT/$ID.demo.rs 2>/dev/null
+[ -s $WTROOT/$ID.demo.rs ] || cp _seed/demo.rs $WTROOT/$ID.demo.rs
 SUITE=$(cargo test --offline --no-fail-fast 2>&1 | grep -E "^test result" | awk '{p+=$4; f+=$6} END {print p" passed "f" failed"}')
-cp /tmp/wt/$ID.demo.rs tests/seed_demo.rs
+cp $WTROOT/$ID.demo.rs tests/seed_demo.rs
 echo "suite with change: $SUITE"
 WITH=$(cargo test --offline --test seed_demo 2>&1 | grep -E "^test result" | head -1)
 echo "demo with change: $WITH"
-git stash -q -- src
+git checkout -q -- src
 WITHOUT=$(cargo test --offline --test seed_demo 2>&1 | grep -E "^test result" | head -1)
-git stash pop -q
+git apply $WTROOT/$ID.patch
 echo "demo without change: $WITHOUT"
 mkdir -p /verif/seeded/$NAME
-cp /tmp/wt/$ID.patch /verif/seeded/$NAME/patch.diff
+cp $WTROOT/$ID.patch /verif/seeded/$NAME/patch.diff
 cp _seed/demo.rs /verif/seeded/$NAME/demo.rs 2>/dev/null || cp tests/seed_demo.rs /verif/seeded/$NAME/demo.rs
 cp _seed/meta.json /verif/seeded/$NAME/agent_meta.json 2>/dev/null
 echo "--- apply to /repo and run checks"
 cd /repo && [ -z "$(git status --porcelain)" ] || { echo "/repo not clean"; exit 2; }
-git apply /tmp/wt/$ID.patch || { echo "patch does not apply to /repo"; exit 2; }
+git apply $WTROOT/$ID.patch || { echo "patch does not apply to /repo"; exit 2; }
 RES=""
 for p in $CHECKS; do
   OUT=$(cd /verif && ./check $p quick 2>&1); RC=$?
